@@ -237,6 +237,35 @@ func jobC11(c *rt.Ctx) {
 			c.Violation(fmt.Sprintf("C11 basepoint-reslice wantErr=%v", wantErr), fmt.Sprintf("X25519(s, Basepoint[:%d]) = %x, %v", hi, out, err), map[string]interface{}{"len": hi})
 		}
 	}
+	// results are fresh memory: they alias neither an argument nor a later result
+	c.Require("result-fresh")
+	for which := 0; which < 2; which++ {
+		if !c.Take() {
+			continue
+		}
+		c.Class("result-fresh")
+		c.Distinct(fmt.Sprintf("fresh %d", which), true)
+		s1, s2 := le32(big.NewInt(12345)), le32(big.NewInt(67890))
+		pt := Basepoint
+		if which == 1 {
+			pt = le32(big.NewInt(9))
+		}
+		o1, _ := X25519(s1, pt)
+		keep := append([]byte{}, o1...)
+		o2, _ := X25519(s2, pt)
+		c.Step(2)
+		bad := !bytes.Equal(o1, keep) || !bytes.Equal(o1, ref.X25519(s1, nine)) || !bytes.Equal(o2, ref.X25519(s2, nine))
+		if len(o1) == 32 {
+			o1[0] ^= 0xff
+			o3, _ := X25519(s1, pt)
+			if !bytes.Equal(o3, keep) || Basepoint[0] != 9 || s1[0] != byte(12345&0xff) {
+				bad = true
+			}
+		}
+		if bad {
+			c.Violation("C11 result aliasing", "an X25519 result shares memory with a later result, an argument or internal state", map[string]interface{}{"fast_path": which == 0})
+		}
+	}
 	// chains: outputs of previous calls as points / scalars (the RFC's iteration, 40 steps)
 	for ch := 0; ch < 4; ch++ {
 		if !c.Take() {
